@@ -17,6 +17,7 @@ import (
 	"github.com/ethereum/go-ethereum/common"
 	"github.com/ethereum/go-ethereum/core/types/goattypes"
 	ethcrypto "github.com/ethereum/go-ethereum/crypto"
+	bitcointypes "github.com/goatnetwork/goat/x/bitcoin/types"
 	goatxtypes "github.com/goatnetwork/goat/x/goat/types"
 	lockingtypes "github.com/goatnetwork/goat/x/locking/types"
 	relayertypes "github.com/goatnetwork/goat/x/relayer/types"
@@ -58,7 +59,9 @@ type lockCfg struct {
 	MaxVals        int64
 	Blocks         int
 	W              lockWeights
-	Adversarial    bool // unknown validators/tokens, duplicate ids, bad creates
+	Adversarial    bool                             // unknown validators/tokens, duplicate ids, bad creates
+	Bitcoin        func(*bitcointypes.GenesisState) // tune the bridge module's genesis (network name ...)
+	UnknownClaims  bool                             // claim lists that end with a claim for a validator that does not exist
 	Params         func(*lockingtypes.Params)
 	Genesis        func(*lockingtypes.GenesisState)
 	Cons           func(*cmttypes.ConsensusParams)
@@ -202,7 +205,7 @@ func newLockHistSchnorr(c *vc.Ctx, cfg lockCfg, idx int, schnorrKey bool) (*lock
 	h := &lockHist{c: c, cfg: cfg, r: world.NewRand(c.Seed, "lockhist/"+cfg.Label, idx), unlocks: map[uint64]*unlockRec{}, claims: map[uint64]*claimRec{}, absentRun: map[int]int{}}
 	h.tokens = []common.Address{tokBTC, tokGOAT, tokX}
 	one := math.NewIntFromUint64(1e18)
-	w, err := world.New(world.Config{Seed: c.Seed, Label: fmt.Sprintf("%s-%d", cfg.Label, idx), Schnorr: schnorrKey, DiskDB: cfg.DiskDB, NVals: cfg.NVals, NNodes: cfg.NNodes, MempoolMax: cfg.MempoolMax, RealTime: cfg.RealTime, Powers: cfg.Powers, Cons: cfg.Cons, Relayer: cfg.Relayer, NRelayers: cfg.NRelayers, ExtraAccounts: cfg.ExtraAccounts,
+	w, err := world.New(world.Config{Seed: c.Seed, Label: fmt.Sprintf("%s-%d", cfg.Label, idx), Schnorr: schnorrKey, DiskDB: cfg.DiskDB, NVals: cfg.NVals, NNodes: cfg.NNodes, MempoolMax: cfg.MempoolMax, RealTime: cfg.RealTime, Powers: cfg.Powers, Cons: cfg.Cons, Relayer: cfg.Relayer, NRelayers: cfg.NRelayers, ExtraAccounts: cfg.ExtraAccounts, Bitcoin: cfg.Bitcoin,
 		Locking: func(g *lockingtypes.GenesisState) {
 			if cfg.MaxVals > 0 {
 				g.Params.MaxValidators = cfg.MaxVals
@@ -567,6 +570,15 @@ func (h *lockHist) gen() *blockOps {
 			o.claims = append(o.claims, rec)
 			o.Reqs.Locking.Claims = append(o.Reqs.Locking.Claims, &goattypes.ClaimRequest{Id: rec.ID, Validator: h.vals[vi].Addr, Recipient: common.BigToAddress(big.NewInt(int64(0x2000 + rec.ID)))})
 			o.Desc = append(o.Desc, fmt.Sprintf("claim#%d v%d", rec.ID, vi))
+		}
+		if (h.cfg.UnknownClaims || adv) && h.r.Intn(4) == 0 {
+			// a claim naming a validator that does not exist, behind genuine ones: whatever the chain does with such a list,
+			// the rewards of the claims in front of it are either paid out or still accrued
+			id := h.nextCID
+			h.nextCID++
+			o.Reqs.Locking.Claims = append(o.Reqs.Locking.Claims, &goattypes.ClaimRequest{Id: id, Validator: common.HexToAddress("0x00000000000000000000000000000000000000ab"), Recipient: common.BigToAddress(big.NewInt(int64(0x2000 + id)))})
+			o.Desc = append(o.Desc, fmt.Sprintf("claim#%d for an unknown validator", id))
+			h.c.Count("claims_naming_an_unknown_validator", 1)
 		}
 	}
 	if roll(w.Grant) {
